@@ -3,7 +3,7 @@ pub mod dep {
 use vstd::prelude::*;
 // ---- stand-ins for dependency types (ASSUMED contracts on dependencies, listed in evidence) ---------------------------
 // Point is euclid::default::Point2D<f32>: a plain pair of f32 (floats are opaque values in lane V: only equality is used).
-#[derive(Clone, Copy)]
+#[derive(Clone, Copy, PartialEq)]
 pub struct Point { pub x: f32, pub y: f32 }
 
 // lyon_geom::QuadraticBezierSegment / CubicBezierSegment: `flattened(tolerance)` yields the polyline lyon computes for the
